@@ -117,8 +117,22 @@ def run_case(case) -> Result:
     return Result(viol, inserted >= 1 and calls >= 2, labels, {"inserted_candles": inserted})
 
 
+def _delta_enumeration(length):
+    from hxv.props.c03 import _delta_enumeration as base
+
+    def gen():
+        for c in base(length)():
+            c.pop("extra", None)
+            yield c
+
+    return gen
+
+
 def shards(tier):
     n = 1200 if tier == "quick" else 30000
     out = [Shard(f"gen-{i}", lambda: cases(), n, subject="fill") for i in range(12)]
     out += [Shard(f"gen-long-{i}", lambda: cases(max_n=100), n // 4, subject="fill", cost=2) for i in range(4)]
+    out.append(Shard("enum-deltas-3", cases=_delta_enumeration(3), subject="fill", exhaustive=True, cost=2))
+    if tier == "thorough":
+        out.append(Shard("enum-deltas-4", cases=_delta_enumeration(4), subject="fill", exhaustive=True, cost=20))
     return out
